@@ -201,6 +201,10 @@ func (r Rec) Line() string {
 		msg = "[Cls] S=" + r.Stamp() + "; mail bob.x@example.com end"
 	case "esc":
 		msg = "[Cls] S=" + r.Stamp() + "; a\\nb\\tc"
+	case "ticket":
+		// carries a token that a configuration loaded later may extract into a field of its own (C17): such a record may be
+		// delivered with or without the field "ticket", no other record may have it
+		msg = "[Cls] S=" + r.Stamp() + "; T=SECRET4711"
 	case "badtime":
 		ts = "not-a-time"
 		msg = "[Cls] S=" + r.Stamp() + ";"
@@ -241,6 +245,8 @@ func (r Rec) Expected() (fields, env map[string]string, tm time.Time, ok bool) {
 		log += " mail REDACTED end"
 	case "esc":
 		log += " a\nb\tc"
+	case "ticket":
+		log += " T=SECRET4711"
 	case "multiline":
 		log += " first\n second line\n\tthird"
 	}
